@@ -95,7 +95,8 @@ Section CellIndex.
 
   (* ---------------------------------------------------------------- ewa.ll2cr + ll2cr_static *)
   Definition ll_cw (a : area T) : T := pixel_size_x OP a.
-  Definition ll_ch (a : area T) : T := neg OP (absf OP (pixel_size_y OP a)).
+  (* ch = -area_def.pixel_size_y: the area's own signed row scale (C08 fix; formerly -abs(pixel_size_y)) *)
+  Definition ll_ch (a : area T) : T := neg OP (pixel_size_y OP a).
   Definition ll_ox (a : area T) : T := add OP (xmin a) (div OP (ll_cw a) two).
   Definition ll_oy (a : area T) : T := add OP (ymax a) (div OP (ll_ch a) two).
   Definition ll_col (a : area T) (x : T) : T := div OP (sub OP x (ll_ox a)) (ll_cw a).
